@@ -36,6 +36,9 @@ Definition no_loop (_ : nat) : Z := 0%Z.
 Definition no_pblock (_ : string) (_ : Z) (_ _ : nat) : list (list xq) := [].
 Definition no_pslice (_ : string) : mval := VErr.
 Definition no_cube3 (_ _ : string) : list (list (list xq)) := [].
+Definition no_ncdf (_ : xq) : xq := NaN.
+Definition no_pscal (_ : string) : xq := NaN.
+Definition no_ovrows (_ _ : string) : list (list (list xq)) := [].
 Definition pcube_mat (cubem : string -> string -> list (list xq)) (c a : string) : mval :=
   VMat DR DC (mnth (cubem c a)).
 
@@ -45,7 +48,7 @@ Definition penv_std (nr nc nrs ncs : nat) (sel : Z)
            (cubem : string -> string -> list (list xq))
            (flag : string -> bool) (cdf : xq -> xq -> xq) : penv :=
   mkPenv (psize nr nc nrs ncs) (sel_ix sel) no_loop blk pblk (pcube_mat cubem) no_pslice no_cube3
-         flag cdf.
+         flag cdf no_ncdf no_pscal no_ovrows.
 
 (* the array [m] has n rows of k columns (a list of lists has no column count when n = 0: the
    blocks of a table without subtotal rows are [], whatever the number of columns) *)
@@ -114,17 +117,17 @@ Proof. intros H Hi. apply mcol_vnth. unfold nrows in H. lia. Qed.
    selection primitives -- but NOT [bin] / [vmap] / [bcast_like] / [nansub], whose case analyses
    would be duplicated over every subterm that is still stuck on a test ([sel <? 0], a flag, [nidx]) *)
 Ltac pair_eval0 :=
-  cbv [pagrees_mat pagrees_scal pev pcev colsel vsize vmap idx2 idx3 ixv with_loop option_map
-       pe_size pe_ix pe_loop pe_block pe_pblock pe_cube pe_slice pe_cube3 pe_flag pe_cdf
-       penv_std psize sel_ix no_loop no_pblock no_pslice no_cube3 pcube_mat
+  cbv [pagrees_mat pagrees_scal pev pcev colsel vsize vmap idx1 idx2 idx3 idx3_of ixv with_loop option_map
+       pe_size pe_ix pe_loop pe_block pe_pblock pe_cube pe_slice pe_cube3 pe_flag pe_cdf pe_ncdf pe_scal pe_ovrows
+       penv_std psize sel_ix no_loop no_pblock no_pslice no_cube3 pcube_mat no_ncdf no_pscal no_ovrows
        rdim cdim andb orb negb String.eqb Ascii.eqb Bool.eqb].
 
 (* phase 2: everything *)
 Ltac pair_eval :=
-  cbv [pev pcev colsel bcast_like vsize idx2 idx3 nansub scal_or_nan is_scal ixv with_loop
-       pagrees_mat pagrees_scal bin vmap bdim bix dim_eqb rdim cdim xpow option_map
-       pe_size pe_ix pe_loop pe_block pe_pblock pe_cube pe_slice pe_cube3 pe_flag pe_cdf
-       penv_std psize sel_ix no_loop no_pblock no_pslice no_cube3 pcube_mat
+  cbv [pev pcev colsel bcast_like vsize idx1 idx2 idx3 idx3_of nansub scal_or_nan is_scal ixv with_loop
+       mask_rows_sum pagrees_mat pagrees_scal bin vmap bdim bix dim_eqb rdim cdim xpow option_map
+       pe_size pe_ix pe_loop pe_block pe_pblock pe_cube pe_slice pe_cube3 pe_flag pe_cdf pe_ncdf pe_scal pe_ovrows
+       penv_std psize sel_ix no_loop no_pblock no_pslice no_cube3 pcube_mat no_ncdf no_pscal no_ovrows
        andb orb negb String.eqb Ascii.eqb Bool.eqb].
 
 Ltac punfold_srcs :=
